@@ -99,13 +99,16 @@ type world struct {
 	setupExpAt    map[string]time.Time // key -> expiry instant written by the setup task
 	skipKey       map[string]bool      // key -> a concurrent-phase operation started before that instant: not judged
 	opStart       map[string]time.Time // task -> start of its current operation
+	opStall0      map[string]time.Duration
+	lastFar       map[string]bool // the last successful write of the key carried no or a far expiry
+	byTask        map[string]*taskState
 	// cancellations tied to the next mutation of a key (C07)
 	beforeMut map[string][]func()
 	afterMut  map[string][]func()
 }
 
 func New(c *sim.Case) (sim.World, error) {
-	return &world{c: c, mode: c.Mode, allVers: map[string]string{}, states: map[string][]keyState{}, lastMutRet: map[string]time.Time{}, expAt: map[string]time.Time{}, expWrites: map[string][]expWrite{}, lastVal: map[string]string{}, initState: map[string]linState{}, setupExpiring: map[string]bool{}, setupExpAt: map[string]time.Time{}, skipKey: map[string]bool{}, opStart: map[string]time.Time{}, beforeMut: map[string][]func(){}, afterMut: map[string][]func(){}}, nil
+	return &world{c: c, mode: c.Mode, allVers: map[string]string{}, states: map[string][]keyState{}, lastMutRet: map[string]time.Time{}, expAt: map[string]time.Time{}, expWrites: map[string][]expWrite{}, lastVal: map[string]string{}, initState: map[string]linState{}, setupExpiring: map[string]bool{}, setupExpAt: map[string]time.Time{}, skipKey: map[string]bool{}, opStart: map[string]time.Time{}, opStall0: map[string]time.Duration{}, lastFar: map[string]bool{}, byTask: map[string]*taskState{}, beforeMut: map[string][]func(){}, afterMut: map[string][]func(){}}, nil
 }
 
 func (w *world) prop() string { return w.c.Prop }
@@ -130,6 +133,12 @@ func (w *world) Setup(e *sim.Env) {
 		grace = time.Duration(g) * time.Millisecond
 	}
 	w.m = newModel(grace)
+	w.m.OwnStall = func() time.Duration { return zsimrt.StalledNs() - w.opStall0[zsimrt.CurrentName()] }
+	// a caller thread inside WaitForVersionChange may be slow at any point of the library code
+	e.StallOK = func(name, point string) bool {
+		ts := w.byTask[name]
+		return ts != nil && ts.waiter != nil && strings.Contains(point, ".go:")
+	}
 	if l := time.Duration(w.c.Knob("net_latency_ns", 0)); l > 0 {
 		w.m.LagWrite, w.m.LagCas = l+l/4, 3*l+l/2
 	}
@@ -149,6 +158,7 @@ func (w *world) Setup(e *sim.Env) {
 		}
 		ts := &taskState{name: t.Name, idx: ti, cl: be.Client(ci), seen: map[string][]string{}}
 		w.tasks = append(w.tasks, ts)
+		w.byTask[t.Name] = ts
 		e.Spawn(t.Name, func() { w.runTask(ts, t) }, func(v any, stack string) {
 			// no stack in the message: it carries goroutine ids and addresses and the
 			// message is part of the canonical trace
@@ -217,6 +227,9 @@ func (ts *taskState) pickVer(key string, n int64) string {
 		if len(s) > 0 {
 			return s[0]
 		}
+	case 6:
+		// the zero value of the field (no stored version is ever empty)
+		return ""
 	case 3, 4, 5:
 		// near misses of the latest version: versions are opaque strings compared for
 		// equality, so none of these may be taken for the stored one
@@ -367,6 +380,7 @@ func (w *world) doOp(ctx context.Context, ts *taskState, op sim.Op, i int) {
 		op.S = rk(op.S)
 	}
 	w.opStart[ts.name] = time.Now()
+	w.opStall0[ts.name] = zsimrt.StalledNs()
 	if ts.name == "s0" && w.c.Knob("exp_phase", 0) == 1 {
 		for j, k := range split(op.S) {
 			exp := op.D > 0 && op.D < int64(time.Minute)
@@ -433,6 +447,7 @@ func (w *world) doOp(ctx context.Context, ts *taskState, op sim.Op, i int) {
 		}
 		if err == nil {
 			w.lastVal[op.S] = op.V
+			w.lastFar[op.S] = exp == nil || time.Until(*exp) > 30*time.Minute
 		}
 	case "get":
 		r, err := ts.cl.Get(ctx, op.S)
@@ -449,7 +464,7 @@ func (w *world) doOp(ctx context.Context, ts *taskState, op sim.Op, i int) {
 			w.shadow(func(m *model) string { oo := o; return m.applyGet(nrm(op.S), &oo, t0, t1) })
 		}
 		if w.mode == "expwait" && op.F {
-			if lv, ok := w.lastVal[op.S]; ok && (err != nil || valStr(r.Value) != lv) {
+			if lv, ok := w.lastVal[op.S]; ok && w.lastFar[op.S] && (err != nil || valStr(r.Value) != lv) {
 				e.Violate("C06", "live_record_dropped", "[%s backend] the record %q was overwritten (value %q, expiry none or far in the future) around the expiry instant of its predecessor; a later Get returned %s: a record whose expiration lies in the future was dropped", w.be.Kind, op.S, lv, o.Err)
 				return
 			}
@@ -520,6 +535,7 @@ func (w *world) doOp(ctx context.Context, ts *taskState, op sim.Op, i int) {
 		}
 		if err == nil {
 			w.lastVal[op.S] = op.V
+			w.lastFar[op.S] = exp == nil || time.Until(*exp) > 30*time.Minute
 		}
 	case "putmany":
 		keys := split(op.S)
@@ -586,6 +602,7 @@ func (w *world) doOp(ctx context.Context, ts *taskState, op sim.Op, i int) {
 		}
 		if err == nil {
 			w.lastVal[op.S] = op.V
+			w.lastFar[op.S] = exp == nil || time.Until(*exp) > 30*time.Minute
 		}
 	case "del":
 		err := ts.cl.Delete(ctx, op.S)
@@ -762,6 +779,10 @@ func (w *world) maybeAbsent(key string, a, b time.Time) bool {
 		to := time.Time{}
 		if i+1 < len(ws) {
 			to = ws[i+1].ret
+		}
+		if !to.IsZero() && to.Before(from) {
+			// replaced before it could expire: this record never made the key absent
+			continue
 		}
 		// [from, to] (to open-ended for the last record) against [a, b]
 		if !b.Before(from) && (to.IsZero() || !a.After(to)) {
@@ -943,6 +964,8 @@ func (w *world) doWait(ctx context.Context, ts *taskState, op sim.Op, i int, seq
 					break
 				}
 			}
+		case 6:
+			ver = "" // the zero value: any existing record differs from it
 		default:
 			ver = ts.pickVer(key, 2)
 		}
@@ -1179,6 +1202,11 @@ func (w *world) checkPrompt(idle bool) {
 		return
 	}
 	e := w.e
+	if e.RT.Stalled() > 0 {
+		// a stalled thread is neither parked in the call nor late by the library's doing; its
+		// stall counts into RT.MaxParked once it is over
+		return
+	}
 	now := time.Now()
 	for _, ws := range w.waits {
 		if !ws.active {
